@@ -96,8 +96,33 @@ func c05Case(c *core.Ctx, r *core.Rand, idx int) error {
 	}
 	var modelLines []string
 	var modelFor []int
+	// everything a load handed out is kept and re-read after every later operation: results are values, not views
+	// of buffers the link system goes on using
+	type retained struct {
+		raw, snap []byte
+		n         datamodel.Node
+		term      string
+		what      string
+	}
+	var kept []retained
+	recheck := func() {
+		for i := range kept {
+			k := &kept[i]
+			if k.raw != nil && !bytes.Equal(k.raw, k.snap) {
+				fail("C05/returned-data-changed-by-later-operation", hex.EncodeToString(k.raw), hex.EncodeToString(k.snap), "bytes returned by "+k.what+" changed during a later operation")
+				k.snap = append([]byte{}, k.raw...)
+			}
+			if k.n != nil {
+				if t := termOf(k.n); t != k.term {
+					fail("C05/returned-data-changed-by-later-operation", t, k.term, "node returned by "+k.what+" changed during a later operation")
+					k.term = t
+				}
+			}
+		}
+	}
 	nops := 4 + r.Intn(10)
 	for op := 0; op < nops; op++ {
+		recheck()
 		if len(items) == 0 || r.Chance(1, 3) {
 			// new value + prototype
 			code := c06Codecs[r.Intn(len(c06Codecs))]
@@ -180,23 +205,25 @@ func c05Case(c *core.Ctx, r *core.Rand, idx int) error {
 			var got string
 			var rawb []byte
 			var err error
+			var keepNode datamodel.Node
 			switch fn {
 			case "Load":
 				var n datamodel.Node
 				if n, err = sys.lsys.Load(linking.LinkContext{}, it.lnk, basicnode.Prototype.Any); err == nil {
-					got = termOf(n)
+					got, keepNode = termOf(n), n
 				}
 			case "Fill":
 				nb := basicnode.Prototype.Any.NewBuilder()
 				if err = sys.lsys.Fill(linking.LinkContext{}, it.lnk, nb); err == nil {
-					got = termOf(nb.Build())
+					keepNode = nb.Build()
+					got = termOf(keepNode)
 				}
 			case "LoadRaw":
 				rawb, err = sys.lsys.LoadRaw(linking.LinkContext{}, it.lnk)
 			case "LoadPlusRaw":
 				var n datamodel.Node
 				if n, rawb, err = sys.lsys.LoadPlusRaw(linking.LinkContext{}, it.lnk, basicnode.Prototype.Any); err == nil {
-					got = termOf(n)
+					got, keepNode = termOf(n), n
 				}
 			}
 			if err != nil {
@@ -209,8 +236,15 @@ func c05Case(c *core.Ctx, r *core.Rand, idx int) error {
 			if rawb != nil && !hashesTo(it.lnk.(cidlink.Link), rawb) {
 				fail("C05/raw-does-not-hash", hex.EncodeToString(rawb), "", fn+" returned bytes that do not hash to the link")
 			}
+			if rawb != nil {
+				kept = append(kept, retained{raw: rawb, snap: append([]byte{}, rawb...), what: fn + " " + it.lnk.String()})
+			}
+			if keepNode != nil {
+				kept = append(kept, retained{n: keepNode, term: got, what: fn + " " + it.lnk.String()})
+			}
 		}
 	}
+	recheck()
 	// D: predicted bytes → hash → CID
 	if len(modelLines) > 0 {
 		outs, err := core.RunDriver(modelLines)
